@@ -23,54 +23,98 @@ def topo(workload, refs):
 
 
 class DataflowMonitor(Monitor):
+    """Reference = an independent model of what every stage has published in its current arming (built from
+    the execution ledger, reset when the stage row is durably re-armed), merged along the dependency path.
+    Checked: what each execution saw, and that the durable outputs of a finished stage are exactly what its
+    executions of the current arming published."""
+
     name = "data"
 
     def __init__(self, workload):
         self.wl = workload
         self.prod = producers(workload)
 
+    def init(self, ex):
+        return {"out": {}}
+
     def step(self, ex, tr, ms):
         v = []
+        model = {k: dict(o) for k, o in ms["out"].items()}
+        for (_seq, tbl, ident, old, new) in tr.audit:
+            if tbl == "S" and new == "NOT_STARTED" and old is not None:
+                model[tr.post.labels.get(ident, ident)] = {}  # re-armed: a new iteration starts from nothing
         for e in tr.ledger:
             s = e["stage"]
             spec = self.wl.spec(s)
-            if spec is None or spec.join != "AND":
+            if spec is not None and spec.join == "AND":
+                v.extend(self.check_seen(tr, e, s, spec, model))
+            model.setdefault(s, {}).update(e.get("out") or {})
+        # a stage that has just finished publishes exactly what its executions of this arming produced
+        for (_seq, tbl, ident, old, new) in tr.audit:
+            if tbl != "S" or new not in ("SUCCEEDED", "FAILED_CONTINUE"):
                 continue
-            anc = self.wl.ancestors(s)
-            ref = {}
-            for a in topo(self.wl, anc):
-                for k, val in tr.pre.stages[a]["out"].items():
-                    if isinstance(ref.get(k), list) and isinstance(val, list):
-                        ref[k] = ref[k] + [x for x in val if x not in ref[k]]
-                    else:
-                        ref[k] = list(val) if isinstance(val, list) else val
-            seen = e["ctx"]
-            for k, exp in ref.items():
-                rel = self.prod.get(k, set()) & anc
-                own = k in spec.ctx
-                if isinstance(exp, list):
-                    got = seen.get(k)
-                    want = sorted(exp + [x for x in (spec.ctx.get(k) or []) if x not in exp], key=str) if own else sorted(exp, key=str)
-                    if not isinstance(got, list) or sorted(got, key=str) != want:
-                        v.append({"kind": "list-output-not-accumulated", "stage": s, "key": k, "saw": got, "expected": want,
-                                  "sig": f"list-differs:{'loop' if seen.get('_jump_count') or tr.pre.stages[s]['ctx'].get('_jump_count') else 'plain'}"})
-                    continue
-                if len(rel) > 1 and not totally_ordered(self.wl, rel):
-                    continue  # unordered producers: the property makes no claim
-                want = spec.ctx[k] if own else exp
+            lab = tr.post.labels.get(ident, ident)
+            spec = self.wl.spec(lab)
+            if spec is None or lab not in tr.post.stages:
+                continue
+            durable = {k: x for k, x in tr.post.stages[lab]["out"].items() if k in self.prod}
+            want = {k: x for k, x in model.get(lab, {}).items() if k in self.prod}
+            if durable != want:
+                extra = sorted(set(durable) - set(want))
+                v.append({"kind": "finished-stage-publishes-other-than-it-produced", "stage": lab, "durable": durable,
+                          "produced_this_iteration": want, "stale_keys": extra,
+                          "sig": "published-differs:" + ("stale-key" if extra else "value")})
+        return {"out": model}, v
+
+    def check_seen(self, tr, e, s, spec, model):
+        v = []
+        anc = self.wl.ancestors(s)
+        ref = {}
+        for a in topo(self.wl, anc):
+            for k, val in model.get(a, {}).items():
+                if isinstance(ref.get(k), list) and isinstance(val, list):
+                    ref[k] = ref[k] + [x for x in val if x not in ref[k]]
+                else:
+                    ref[k] = list(val) if isinstance(val, list) else val
+        seen = e["ctx"]
+        loop = bool(seen.get("_jump_count") or tr.pre.stages[s]["ctx"].get("_jump_count"))
+        for k, exp in ref.items():
+            rel = self.prod.get(k, set()) & anc
+            own = k in spec.ctx
+            if own and not isinstance(spec.ctx[k], list):
+                want = spec.ctx[k]  # a non-list value set on the stage itself wins, whatever the ancestors hold
                 if seen.get(k, "<missing>") != want:
-                    it = any(st["ctx"].get("_jump_count") for st in tr.pre.stages.values())
-                    v.append({"kind": "saw-wrong-upstream-value", "stage": s, "key": k, "saw": seen.get(k, "<missing>"),
-                              "expected": want, "producers": sorted(rel), "own": own,
-                              "sig": f"value-differs:{'stale-after-jump' if it else 'plain'}"})
-            for k in seen:
-                if k.startswith("_") or k in spec.ctx:
-                    continue
-                ps = self.prod.get(k)
-                if ps and not (ps & (anc | {s})):
-                    v.append({"kind": "saw-non-ancestor-output", "stage": s, "key": k, "producers": sorted(ps),
-                              "sig": "non-ancestor-leak"})
-        return ms, v
+                    v.append({"kind": "own-value-did-not-win", "stage": s, "key": k, "saw": seen.get(k, "<missing>"),
+                              "expected": want, "ancestors_value": exp, "sig": "own-value-lost"})
+                continue
+            if isinstance(exp, list):
+                got = seen.get(k)
+                want = sorted(exp + [x for x in spec.ctx[k] if x not in exp], key=str) if own else sorted(exp, key=str)
+                if not isinstance(got, list) or sorted(got, key=str) != want:
+                    v.append({"kind": "list-output-not-accumulated", "stage": s, "key": k, "saw": got, "expected": want,
+                              "sig": f"list-differs:{'loop' if loop else 'plain'}"})
+                continue
+            if own:
+                continue  # own list over an ancestor's scalar: the property makes no claim
+            if len(rel) > 1 and not totally_ordered(self.wl, rel):
+                continue  # unordered producers: the property makes no claim
+            if seen.get(k, "<missing>") != exp:
+                it = any(st["ctx"].get("_jump_count") for st in tr.pre.stages.values())
+                v.append({"kind": "saw-wrong-upstream-value", "stage": s, "key": k, "saw": seen.get(k, "<missing>"),
+                          "expected": exp, "producers": sorted(rel), "own": own,
+                          "sig": f"value-differs:{'stale-after-jump' if it else 'plain'}"})
+        for k in seen:
+            if k.startswith("_") or k in spec.ctx:
+                continue
+            ps = self.prod.get(k)
+            if ps and not (ps & (anc | {s})):
+                v.append({"kind": "saw-non-ancestor-output", "stage": s, "key": k, "producers": sorted(ps),
+                          "sig": "non-ancestor-leak"})
+            elif ps and k not in ref and not (ps & {s}):
+                # produced by an ancestor only in an iteration that was abandoned (or not at all in this one)
+                v.append({"kind": "saw-output-no-ancestor-currently-publishes", "stage": s, "key": k, "saw": seen[k],
+                          "producers": sorted(ps), "sig": f"stale-output-seen:{'loop' if loop else 'plain'}"})
+        return v
 
 
 # workloads with overlapping keys, own-context precedence and list own values
@@ -83,6 +127,18 @@ def own_ctx_diamond():
 
 
 W.own_ctx_diamond = own_ctx_diamond
+
+
+def own_ctx_mixed():
+    """own scalar where the ancestors publish a list, own list where they publish a scalar"""
+    w = W.diamond()
+    w.name = "diamond_own_mixed"
+    w.spec("D").ctx.update({"l": "own-scalar", "k": ["own-list"]})
+    w.spec("B").ctx.update({"l": "b-own-scalar"})
+    return w
+
+
+W.own_ctx_mixed = own_ctx_mixed
 
 
 def reducer_permutations(max_branches):
@@ -198,7 +254,8 @@ class ReducerE2EMonitor(Monitor):
 def jobs(tier, seed):
     js = [{"label": "reducers|permutations", "reducers": 3 if tier == "quick" else 4}]
     js.append({"label": "fan_reducer|all-orders", "wl": wl("fan_reducer"), "budget": {}, "e2e": True})
-    specs = [wl("chain3"), wl("diamond"), wl("own_ctx_diamond"), wl("fan3"), wl("multitask"), wl("diamond_multitask"),
+    specs = [wl("chain3"), wl("diamond"), wl("own_ctx_diamond"), wl("own_ctx_mixed"), wl("jump_partial_outputs", 1),
+             wl("jump_partial_outputs", 2), wl("jump_self_partial", 2), wl("fan3"), wl("multitask"), wl("diamond_multitask"),
              wl("jump_self", 2), wl("jump_cycle", 2, 2), wl("jump_cycle", 3, 2), wl("jump_cycle", 4, 1),
              wl("jump_side_fanin", 2), wl("jump_forward_diamond", 1), wl("continue_on_fail"), wl("skip_stage")]
     for spec in specs:
